@@ -64,6 +64,21 @@ CHECKS["C15"] = dict(
          "real pandas and real files), the dictionary reference model. One open known finding (silent failed write).",
     design="4/C15")
 
+CHECKS["C03"] = dict(
+    level="model_checking", engine="X+S",
+    technique="CrossHair symbolic execution (z3) of the real GIRProcessing.flatten + add_main_func on every nested-GIR shape "
+              "in a bounded token grammar with a symbolic, unbounded start id; z3 (cvc5 cross-check) on the AST-derived "
+              "encoding of adjust_node_id for the inter-unit id gap",
+    text="Half (a) of the property (any nested GIR value -> well-formed rows): for every shape up to the token bound and every "
+         "start id (symbolic int) the rows emitted by the real flattener and the real unit-initialiser pass are scanned "
+         "independently for unique ids, paired and nested markers, parent = enclosing block, body attributes naming owned "
+         "blocks, top-level executable code gathered in order in exactly one %unit_init, no statement lost; the real "
+         "GIRBlockViewer must accept the rows; the inter-unit id gap is decided for all ints from the AST. Half (b) "
+         "(arbitrary source text through tree-sitter never raises) cannot be made symbolic and is not claimed.",
+    note="Trusted: CrossHair/z3/cvc5, the shape decoder and the 80-line scan; frontends are assumed to emit values inside the "
+         "shape grammar (non-empty bodies, single-key statement dicts).",
+    design="4/C03")
+
 NOT_APPLICABLE = {
     "C12": "A relation between two whole-pipeline runs on syntactically edited programs: the quantified objects are "
            "program texts and edit sequences; no run-time input, id, flag or history for a solver to range over; "
